@@ -20,6 +20,13 @@ import (
 type c16Case struct {
 	Format   string  `json:"format"` // srt vtt ttml ssa stl25 stl30
 	Instants []int64 `json:"instants_ns"`
+	// STL only: the programme's start timecode in frames (the GSI TCP field); cue timecodes are relative to it
+	TCPUnits int64 `json:"tcp_frames,omitempty"`
+}
+
+// ceilNs is the instant a reader assigns to u units of 1/perSecond s (rounded up to the next nanosecond).
+func ceilNs(u, perSecond int64) int64 {
+	return u/perSecond*1_000_000_000 + (u%perSecond*1_000_000_000+perSecond-1)/perSecond
 }
 
 func init() { register("c16", checkC16) }
@@ -92,7 +99,7 @@ func checkC16(c c16Case) string {
 		if c.Format == "stl30" {
 			perSecond = 30
 		}
-		s.Metadata = &astisub.Metadata{Framerate: int(perSecond), STLDisplayStandardCode: "0"}
+		s.Metadata = &astisub.Metadata{Framerate: int(perSecond), STLDisplayStandardCode: "0", STLTimecodeStartOfProgramme: time.Duration(ceilNs(c.TCPUnits, perSecond))}
 		write = func(s *astisub.Subtitles, b *bytes.Buffer) error { return s.WriteToSTL(b) }
 		read = func(b []byte) (*astisub.Subtitles, error) {
 			return astisub.ReadFromSTL(bytes.NewReader(b), astisub.STLOptions{})
@@ -137,8 +144,22 @@ func checkC16(c c16Case) string {
 			}
 		}
 	}
+	var tcpNs int64
+	if re == nil {
+		tcpNs = ceilNs(c.TCPUnits, perSecond)
+		f := c.TCPUnits % perSecond
+		sec := c.TCPUnits / perSecond
+		if want := fmt.Sprintf("%02d%02d%02d%02d", sec/3600, sec/60%60, sec%60, f); string(out[256:264]) != want {
+			return fmt.Sprintf("%s: programme start of %d frames (%d ns) rendered as %q in the GSI block, expected %q", c.Format, c.TCPUnits, tcpNs, out[256:264], want)
+		}
+	}
 	for i, u := range rendered {
-		if want := floorUnits(c.Instants[i], perSecond); u != want {
+		want := floorUnits(c.Instants[i]+tcpNs, perSecond)
+		if alt := floorUnits(c.Instants[i], perSecond) + c.TCPUnits; u == alt && tcpNs*perSecond != c.TCPUnits*1_000_000_000 {
+			// the programme start itself is only representable to the nanosecond: both readings of "not after" are accepted
+			want = alt
+		}
+		if u != want {
 			return fmt.Sprintf("%s: instant %d ns rendered as %d units of 1/%d s, the latest representable instant not after it is %d", c.Format, c.Instants[i], u, perSecond, want)
 		}
 	}
@@ -163,7 +184,7 @@ func checkC16(c c16Case) string {
 	}
 	for i, it := range s2.Items {
 		for k, got := range []int64{int64(it.StartAt), int64(it.EndAt)} {
-			u := rendered[2*i+k]
+			u := rendered[2*i+k] - c.TCPUnits
 			// exact value of the rendering in ns: u / perSecond seconds
 			lo := u / perSecond * 1_000_000_000
 			rem := u % perSecond * 1_000_000_000 // / perSecond
@@ -187,6 +208,9 @@ func checkC16(c c16Case) string {
 	if c.Format == "stl25" || c.Format == "stl30" {
 		// compare the timecodes (the GSI block legitimately differs: the reader fills metadata the first list did not have)
 		for i := 0; i < n; i++ {
+			if i == 0 && !bytes.Equal(out[256:272], o2[256:272]) {
+				return fmt.Sprintf("%s: second write renders the programme start and first cue as %q, the first as %q", c.Format, o2[256:272], out[256:272])
+			}
 			a, b := out[1024+128*i+5:1024+128*i+13], o2[1024+128*i+5:1024+128*i+13]
 			if !bytes.Equal(a, b) {
 				return fmt.Sprintf("%s: second write renders cue %d as %v, the first as %v (instants %d, %d ns)", c.Format, i, b, a, c.Instants[2*i], c.Instants[2*i+1])
@@ -209,9 +233,15 @@ func checkC16(c c16Case) string {
 var c16Formats = []string{"srt", "vtt", "ttml", "ssa", "stl25", "stl30"}
 
 // runBatch checks a batch and, on failure, narrows it to the failing cue for the replay file.
-func runBatch(t fataler, format string, instants []int64) {
+func runBatch(t fataler, format string, instants []int64, tcp ...int64) {
 	c := c16Case{Format: format, Instants: instants}
-	ev.CaseH(true, mix(strHash(format), uint64(instants[0]), uint64(len(instants)), uint64(instants[len(instants)-1])), "format-"+format)
+	if len(tcp) > 0 {
+		c.TCPUnits = tcp[0]
+	}
+	ev.CaseH(true, mix(strHash(format), uint64(instants[0]), uint64(len(instants)), uint64(instants[len(instants)-1]), uint64(c.TCPUnits)), "format-"+format)
+	if c.TCPUnits != 0 {
+		ev.Label("stl-programme-start-nonzero")
+	}
 	ev.AddEvals(len(instants) - 1) // every instant of the batch is an evaluated input; distinct counts batches (conservative)
 	head := instants
 	if len(head) > 6 {
@@ -223,7 +253,7 @@ func runBatch(t fataler, format string, instants []int64) {
 		return
 	}
 	for i := 0; i+1 < len(instants); i += 2 {
-		small := c16Case{Format: format, Instants: instants[i : i+2]}
+		small := c16Case{Format: format, Instants: instants[i : i+2], TCPUnits: c.TCPUnits}
 		if m := guarded(func() string { return checkC16(small) }); m != "" {
 			verdict(t, "C16", "c16", small, checkC16)
 		}
@@ -290,6 +320,21 @@ func TestC16(t *testing.T) {
 			}
 			if len(ins)%2 == 1 {
 				ins = append(ins, 0)
+			}
+			if format == "stl25" || format == "stl30" {
+				// the same pool against programmes that do not start at zero (cue timecodes are then offset by the GSI TCP field)
+				rate := int64(25)
+				if format == "stl30" {
+					rate = 30
+				}
+				short := ins
+				if !thorough() && len(short) > 6000 {
+					short = short[:6000]
+				}
+				for _, tcp := range []int64{1, 7, rate + 4, 10*3600*rate + 5, 3600*rate - 1, 86400*rate - 1} {
+					runBatch(t, format, short, tcp)
+					total += len(short)
+				}
 			}
 			for len(ins) > 0 {
 				k := 100000
@@ -376,6 +421,18 @@ func TestC16(t *testing.T) {
 			ins = append(ins, rapid.Int64Range(0, limit(format)-1).Draw(rt, "instant"))
 		}
 		c := c16Case{Format: format, Instants: ins}
+		if (format == "stl25" || format == "stl30") && rapid.Bool().Draw(rt, "hastcp") {
+			rate := int64(25)
+			if format == "stl30" {
+				rate = 30
+			}
+			if rapid.Bool().Draw(rt, "smalltcp") {
+				c.TCPUnits = rapid.Int64Range(1, 100*rate).Draw(rt, "tcp")
+			} else {
+				c.TCPUnits = rapid.Int64Range(1, 86400*rate-1).Draw(rt, "tcp")
+			}
+			ev.Label("stl-programme-start-nonzero")
+		}
 		ev.Case(true, fmt.Sprintf("%v", c), "random", "format-"+format)
 		if n <= 2 {
 			ev.Sample("random", c)
